@@ -305,3 +305,66 @@ func H11dia() {
 	d := eb.Dir["d"]
 	check(d != nil && d.Type != nil && d.Type.IdentityBase == id("r", "ROOT"), "an identityref sees the list of the identity it names")
 }
+
+// H11late: identities that arrive after a processing run. Module r holds ROOT <- MID; module c,
+// loaded before or after a first Process, derives LEAF from ROOT or from MID (symbolic), and a
+// third module d derives DEEP from c's LEAF after yet another run or not: every list is the
+// closure over all loaded modules after the last run.
+func H11late() {
+	r := `module r { namespace "urn:r"; prefix r; identity ROOT; identity MID { base ROOT; } leaf l { type identityref { base ROOT; } } }`
+	from := []string{"r:ROOT", "r:MID"}[symChoice(2)]
+	c := `module c { namespace "urn:c"; prefix c; import r { prefix r; } identity LEAF { base ` + from + `; } }`
+	d := `module d { namespace "urn:d"; prefix d; import c { prefix c; } identity DEEP { base c:LEAF; } }`
+	hNoFiles()
+	ms := NewModules()
+	check(ms.Parse(r, "r.yang") == nil, "r loads")
+	if symBool() {
+		check(len(ms.Process()) == 0, "r processes")
+	}
+	check(ms.Parse(c, "c.yang") == nil, "c loads")
+	if symBool() {
+		check(len(ms.Process()) == 0, "r, c process")
+	}
+	withD := symBool()
+	if withD {
+		check(ms.Parse(d, "d.yang") == nil, "d loads")
+	}
+	check(len(ms.Process()) == 0, "the set processes")
+	reach("accepted")
+	id := func(mod, name string) *Identity {
+		for _, i := range ms.Modules[mod].Identity {
+			if i.Name == name {
+				return i
+			}
+		}
+		return nil
+	}
+	has := func(i *Identity, names ...string) {
+		check(i != nil && len(i.Values) == len(names), "each identity lists exactly the identities of all loaded modules that reach it, whenever they were loaded")
+		if i == nil {
+			return
+		}
+		for _, n := range names {
+			c := 0
+			for _, v := range i.Values {
+				if v.Name == n {
+					c++
+				}
+			}
+			check(c == 1, "each identity lists exactly the identities of all loaded modules that reach it, each once")
+		}
+	}
+	deep := []string{}
+	if withD {
+		deep = []string{"DEEP"}
+	}
+	has(id("r", "ROOT"), append([]string{"MID", "LEAF"}, deep...)...)
+	if from == "r:MID" {
+		has(id("r", "MID"), append([]string{"LEAF"}, deep...)...)
+	} else {
+		has(id("r", "MID"))
+	}
+	has(id("c", "LEAF"), deep...)
+	l := ToEntry(ms.Modules["r"]).Dir["l"]
+	check(l.Type.IdentityBase == id("r", "ROOT"), "the identityref sees the same list")
+}
